@@ -140,6 +140,7 @@ def run(repo: Repo) -> Result:
     # conditional expression or as two constructions under the isinstance test and its negation
     from ..guards import canon as _canon7
     from ..guards import conditions as _conds7
+    from ..guards import inner_conditions as _inner7
 
     assigns = {t.id: st.value for st in walk_no_nested(gb.node) if isinstance(st, ast.Assign) for t in st.targets if isinstance(t, ast.Name)}
     is_lim = _canon7(ast.parse(f"isinstance({bparam}, LimitedStringIO)", mode="eval").body)
@@ -172,6 +173,32 @@ def run(repo: Repo) -> Result:
     ok = ok and carried
     if not ok:
         res.add("C07-BUFFER", gb.qual, "carry", "get_buffer must give the child buffer `output_stream_limit - parent.size` (0 only when the parent is unlimited)", gb.file, gb.line)
+    # an unlimited buffer exactly when no limit is configured: in both owners every plain
+    # ``StringIO()`` is constructed under ``output_stream_limit is None`` and every limited one
+    # under its negation.  (A truthiness test would make a limit of 0 mean "unlimited".)
+    is_none = _canon7(ast.parse("self.env.output_stream_limit is None", mode="eval").body)
+    not_none = _canon7(ast.parse("self.env.output_stream_limit is not None", mode="eval").body)
+    for owner in sorted(BUFFER_OWNERS):
+        cq, mn = owner.rsplit(".", 1)
+        of = nfunc(repo, repo.own_method(cq, mn))
+        res.ob(f"{owner}:unlimited-iff-none", 2)
+        n_plain = n_lim = 0
+        for st7, cs7 in _conds7(of.node):
+            if isinstance(st7, (ast.If, ast.For, ast.While, ast.With, ast.Try)):
+                continue
+            inner = _inner7(st7)
+            for c in [x for x in ast.walk(st7) if isinstance(x, ast.Call)]:
+                cc7 = {_canon7(k) for k in list(cs7) + inner.get(id(c), [])}
+                if callee_name(c) == "StringIO":
+                    n_plain += 1
+                    if is_none not in cc7:
+                        res.add("C07-BUFFER", owner, "unlimited-without-none-test", f"{owner} constructs an unlimited StringIO where `output_stream_limit is None` is not known to hold (path conditions: {sorted(text(k) for k in cs7)}): with a limit of 0 — or whatever else that test lets through — the render is not limited at all", of.file, c.lineno)
+                elif callee_name(c) == "LimitedStringIO":
+                    n_lim += 1
+                    if not_none not in cc7:
+                        res.add("C07-BUFFER", owner, "limited-without-limit", f"{owner} constructs a LimitedStringIO where the limit may be None", of.file, c.lineno)
+        if not n_plain or not n_lim:
+            raise AnchorMissing(f"{owner}: expected one unlimited and one limited buffer construction")
     # call sites of get_buffer
     n_sites = 0
     for f in repo.all_functions():
